@@ -95,6 +95,11 @@ func (s *socket) send() {
 		c.lastPipe = p
 		if c.resendTime > 0 {
 			id := c.reqID
+			if c.resendTimer != nil {
+				// a retry timer from an earlier transmission of this
+				// request must not keep running next to the new one
+				c.resendTimer.Stop()
+			}
 			c.resendTimer = time.AfterFunc(c.resendTime, func() {
 				c.resendMessage(id)
 			})
